@@ -78,3 +78,33 @@ Theorem C03_diffuse_sampling_independent {T} {O : Ops T} {RL : RingLaws T}
   get4 (patch_hist sc tm s K) j d b t = get4 (patch_hist sc' tm s' K) j d' b t.
 Proof. exact (diffuse_sampling_independent sc sc' rho tm s s' K j d d' b t). Qed.
 Print Assumptions C03_diffuse_sampling_independent.
+
+(** (5) "fed only with the scene description": for EVERY room given by its wall polygons, patch
+    size, BRDF tables/direction sets and attenuation, the histograms that the composed model
+    (tiling, centroids, areas, patch visibility, pair list, form factors, wall frames, point
+    visibility and solid-angle shares, baking, exchange -- Model/Full.v) computes are that
+    recursion; two patches exchange energy iff their centroids are in line of sight of every patch
+    surface; a hidden patch gets exactly nothing from the source. *)
+From SV Require Import Model.Frame Model.Tiling Model.Visibility Model.Stokes Model.PtSolution Model.Full
+  Proofs.FullProofs.
+Theorem C03_from_polygons {T} {O : Ops T} {RL : RingLaws T} (rm : @room T) tm src K j d b t :
+  rm_ref_out rm <> [] ->
+  j < s_np (room_scene rm) -> d < s_nd (room_scene rm) -> b < s_nb (room_scene rm) -> t < n_samples tm ->
+  get4 (patch_hist (room_scene rm) tm (room_source rm src) K) j d b t =
+  Tot (directed (vis_pairs (room_scene rm))) (scene_delta (room_scene rm) tm) (tilde_entry (room_scene rm))
+      (out_index (room_scene rm)) (scene_delta0 (room_scene rm) tm (room_source rm src))
+      (e0dir_entry (room_scene rm) (room_source rm src)) K j d b t.
+Proof. intros H. exact (room_hist_is_recursion rm H tm src K j d b t). Qed.
+Print Assumptions C03_from_polygons.
+
+Theorem C03_pairs_line_of_sight {T} {O : Ops T} (rm : @room T) i j :
+  i < j -> j < rm_np rm ->
+  vis_sym (room_scene rm) i j =
+  visible_all (rm_eps rm) (rm_eta rm) (rm_patch_surfs rm) (nthv (rm_centers rm) i) (nthv (rm_centers rm) j).
+Proof. exact (room_pairs_are_line_of_sight rm i j). Qed.
+Print Assumptions C03_pairs_line_of_sight.
+
+Theorem C03_hidden_zero {T} {O : Ops T} (rm : @room T) src j b :
+  nthb (room_point_vis rm src) j = false -> energy0 (room_scene rm) (room_source rm src) j b = 0%T.
+Proof. exact (room_hidden_zero rm src j b). Qed.
+Print Assumptions C03_hidden_zero.
